@@ -234,10 +234,10 @@ Proof.
     destruct st; simpl; auto. destruct (n =? k_paths k); simpl; auto.
 Qed.
 
-Theorem top_level_type_check_iff s :
-  top_level_type_check s = TErr TeMultipath <-> multipath_mismatch (all_keys (s_nodes s)).
+Theorem top_level_multipath_check_iff s :
+  top_level_multipath_check s = TErr TeMultipath <-> multipath_mismatch (all_keys (s_nodes s)).
 Proof.
-  unfold top_level_type_check. rewrite <- mp_run_mismatch.
+  unfold top_level_multipath_check. rewrite <- mp_run_mismatch.
   pose proof (mp_fold_abs (all_keys (s_nodes s)) MpSingle) as H. simpl in H.
   destruct (fold_left mp_step (all_keys (s_nodes s)) MpSingle); simpl in H; rewrite <- H;
     split; congruence.
